@@ -82,8 +82,9 @@ func BytesOf32(h [32]byte) []byte { return nil }
 
 // SQLParse parses a constant SQL statement text (see sqlmodel.go): op (0 unknown, 1 create,
 // 2 select, 3 insert, 4 update, 5 delete), insert conflict mode (0 plain, 1 replace, 2 ignore),
-// the columns named (1 logID, 2 chkpt, 3 range) and whether it ends in WHERE logID = ?.
-func SQLParse(query string) (op int, conflict int, cols []int, whereKey bool) { return }
+// the columns named (1 logID, 2 chkpt, 3 range) and the WHERE clause (0 none, 1 "logID = ?",
+// 2 "logID = ? AND chkpt = ?").
+func SQLParse(query string) (op int, conflict int, cols []int, where int) { return }
 
 // Deadlocked reports whether RunThreads ended with unfinished threads and none runnable.
 func Deadlocked() bool { return false }
